@@ -190,7 +190,7 @@ func verifyFunc(prog *Program, fi *FuncInfo, ct *Contract, opts *Options) (fr *F
 		if obj == nil || n.Name == "_" {
 			return
 		}
-		v := e.fresh(n.Name, e.sortOf(obj.Type()))
+		v := e.fresh(n.Name, e.varSort(obj))
 		e.assumeGlobal(e.rangeFact(v, obj.Type()))
 		e.assumeGlobal(e.allocFact(v, obj.Type(), e.alloc0))
 		if isRecv {
@@ -603,8 +603,12 @@ func (e *Exec) useLemma(st *State, name string) {
 		post = append(post, e.specBool(pst, en, env))
 	}
 	var pats []string
-	for _, t := range ct.Trigger {
-		pats = append(pats, ":pattern ("+e.specTerm(pst, t, env).S+")")
+	for _, g := range ct.Triggers {
+		var ts []string
+		for _, t := range g {
+			ts = append(ts, e.specTerm(pst, t, env).S)
+		}
+		pats = append(pats, ":pattern ("+strings.Join(ts, " ")+")")
 	}
 	sort.Strings(probe)
 	for _, k := range probe {
@@ -650,8 +654,12 @@ func (e *Exec) pureLemmaParts(ct *Contract, prefix string) (binders []string, va
 	for _, en := range ct.Ensures {
 		posts = append(posts, e.specBool(pst, en, env))
 	}
-	for _, t := range ct.Trigger {
-		pats = append(pats, ":pattern ("+e.specTerm(pst, t, env).S+")")
+	for _, g := range ct.Triggers {
+		var ts []string
+		for _, t := range g {
+			ts = append(ts, e.specTerm(pst, t, env).S)
+		}
+		pats = append(pats, ":pattern ("+strings.Join(ts, " ")+")")
 	}
 	measure = IntLit(0)
 	if ct.Decreases != nil {
